@@ -1,6 +1,8 @@
 """C02 - every solver returns an honest, self-consistent result within a bounded budget (DESIGN 3, C02)."""
 import re
 
+import sympy as sp
+
 from ..cfg import partitioned_dataflow
 from ..facts import AnalysisBroken, walk, strip_targs
 from ..pp import pp, skip, canon_text as CT
@@ -915,6 +917,280 @@ def rule_returned_state(F, R, fns, floor=12):
     R.floor("R-C02-5", n, floor, "do_minimize bodies")
 
 
+# ------------------------------------------------------------------------------------------------ R-C02-7 adopted steps were tested
+
+class _Opaque(Exception):
+    pass
+
+
+class _StepProvenance:
+    """Abstract interpretation of a step-size search that overwrites the solver state unconditionally (`state.update(point)`): tracks the
+    scalar step variable symbolically and the set of steps that passed a decrease test `f(point) {<,<=} state.fx() - margin` at the very
+    point that was evaluated; loops are handled by the invariant "the current step is a tested one" (checked base + inductive, dropped
+    otherwise). Every adopted point has to be a tested one - the only thing that keeps a solver without best-point tracking monotone."""
+
+    def __init__(self, f, R, inst):
+        self.f, self.R, self.inst = f, R, inst
+        self.sites = 0
+        self.opaque = None
+        self.fresh = 0
+
+    # ---- scalar expressions
+    def ev(self, n, st):
+        n = skip(n)
+        k = n["k"]
+        if k in ("cast", "paren") and n.get("c"):
+            return self.ev(n["c"][0], st)
+        if k in ("float", "int"):
+            return sp.nsimplify(n["v"], rational=True)
+        if k == "ref":
+            if n.get("d") in st["env"]:
+                return st["env"][n["d"]]
+            return sp.Symbol("v_" + str(n.get("n")), real=True)
+        if k == "mem":
+            return sp.Symbol(str(n.get("n")), positive=True)
+        if k == "un" and n.get("op") == "-":
+            return -self.ev(n["c"][0], st)
+        if k == "bin" and n["op"] in ("+", "-", "*", "/"):
+            a, b = self.ev(n["c"][0], st), self.ev(n["c"][1], st)
+            return {"+": a + b, "-": a - b, "*": a * b, "/": a / b}[n["op"]]
+        raise _Opaque(pp(n)[:60])
+
+    def scalar(self, n):
+        t = ((skip(n) or {}).get("t") or "").replace("const ", "").replace("&", "").strip()
+        return t in ("double", "float", "long", "int", "nano::scalar_t", "scalar_t")
+
+    def point(self, n, st):
+        """(base text, direction text, step) of `base - step * dir` (also through `x = ...` and a variable assigned such a point)"""
+        n = skip(n)
+        a = assignment(n)
+        if a:
+            p_ = self.point(a[1], st)
+            d_ = ref_decl(a[0])
+            if d_ is not None and p_ is not None:
+                st["points"][d_] = p_
+            return p_
+        if n["k"] == "ref":
+            return st["points"].get(n.get("d"))
+        if n["k"] in ("bin", "call") and n.get("op") == "-" and len(n.get("c", ())) == 2:
+            base, prod = skip(n["c"][0]), skip(n["c"][1])
+            if prod["k"] in ("bin", "call") and prod.get("op") == "*" and len(prod.get("c", ())) == 2:
+                u, v = prod["c"]
+                for s_, d_ in ((u, v), (v, u)):
+                    if self.scalar(s_) and not self.scalar(d_):
+                        return (pp(base), pp(d_), self.ev(s_, st))
+        return None
+
+    # ---- statements; returns the list of fall-through states
+    def copy(self, st):
+        return {"env": dict(st["env"]), "tested": list(st["tested"]), "fx": dict(st["fx"]), "points": dict(st["points"])}
+
+    def known(self, st, p_):
+        return p_ is not None and any(q[0] == p_[0] and q[1] == p_[1] and sp.simplify(q[2] - p_[2]) == 0 for q in st["tested"])
+
+    def expr(self, n, st):
+        n = skip(n)
+        if n is None:
+            return
+        k = n["k"]
+        if k == "bin" and n["op"] == ",":
+            self.expr(n["c"][0], st)
+            self.expr(n["c"][1], st)
+            return
+        if k == "bin" and n["op"] in ("*=", "/=", "+=", "-=", "=") and skip(n["c"][0])["k"] == "ref" and self.scalar(n["c"][0]):
+            d_ = skip(n["c"][0])["d"]
+            rhs = skip(n["c"][1])
+            if n["op"] == "=" and self.vgrad(rhs):
+                self.evaluate(rhs, d_, st)
+                return
+            v = self.ev(rhs, st)
+            old = st["env"].get(d_)
+            if n["op"] != "=" and old is None:
+                raise _Opaque(pp(n)[:60])
+            st["env"][d_] = v if n["op"] == "=" else {"*=": old * v, "/=": old / v, "+=": old + v, "-=": old - v}[n["op"]]
+            return
+        if k == "call" and callee(n) == "nano::solver_state_t::update" and len(n["c"]) >= 2:
+            p_ = self.point(args(n)[0], st)
+            self.sites += 1
+            where = self.f.loc(n)
+            if p_ is None:
+                self.R.incomplete("R-C02-7", self.inst + " adopt@%d" % n["l"], where, "the adopted point `%s` is not of the form base - step * direction" % pp(args(n)[0])[:60])
+            elif self.known(st, p_):
+                self.R.ok("R-C02-7", self.inst + " adopt@%d" % n["l"], where, "the adopted step %s passed the decrease test at the evaluated point" % p_[2])
+            elif self.opaque:
+                self.R.incomplete("R-C02-7", self.inst + " adopt@%d" % n["l"], where, "cannot interpret `%s`" % self.opaque)
+            else:
+                self.R.bad("R-C02-7", self.inst + " adopt@%d" % n["l"], where,
+                           "state.update() adopts the point %s - (%s) * %s, but the steps that passed the decrease test on this path are %s: the adopted point was never "
+                           "evaluated and tested, the state is overwritten unconditionally and the returned value can exceed the starting value" % (
+                               p_[0], p_[2], p_[1], [str(q[2]) for q in st["tested"]] or "none"))
+            st["tested"] = []
+            return
+        if self.vgrad(n):
+            self.evaluate(n, None, st)
+            return
+        if k == "un" and n.get("op") in ("++", "--"):
+            d_ = ref_decl(n["c"][0])
+            if d_ in st["env"]:
+                st["env"][d_] = st["env"][d_] + (1 if n["op"] == "++" else -1)
+            return
+        # anything else: must not write a tracked variable
+        for x in walk(n):
+            a = assignment(x)
+            if a and ref_decl(a[0]) in st["env"]:
+                raise _Opaque(pp(x)[:60])
+
+    def vgrad(self, n):
+        n = skip(n)
+        return n is not None and n["k"] == "call" and callee(n).endswith("function_t::vgrad")
+
+    def evaluate(self, call, target, st):
+        p_ = self.point(args(call)[0], st)
+        if target is not None:
+            st["fx"][target] = p_
+
+    def cond(self, n, st):
+        """(state on true, state on false)"""
+        n = skip(n)
+        while n["k"] in ("paren",) and n.get("c"):
+            n = skip(n["c"][0])
+        if n["k"] == "un" and n.get("op") == "!":
+            t_, f_ = self.cond(n["c"][0], st)
+            return f_, t_
+        if n["k"] == "bin" and n["op"] == "&&":
+            t1, _ = self.cond(n["c"][0], st)
+            t2, _ = self.cond(n["c"][1], t1)
+            return t2, self.copy(st)
+        t_, f_ = self.copy(st), self.copy(st)
+        if n["k"] == "bin" and n["op"] in ("<", "<="):
+            a, b = skip(n["c"][0]), skip(n["c"][1])
+            for fxn, other, on_true in ((a, b, True), (b, a, False)):
+                if fxn["k"] == "ref" and fxn.get("d") in st["fx"] and other["k"] == "bin" and other["op"] == "-" and \
+                        skip(other["c"][0])["k"] == "call" and callee(skip(other["c"][0])) == "nano::solver_state_t::fx":
+                    p_ = st["fx"][fxn["d"]]
+                    if p_ is not None:
+                        (t_ if on_true else f_)["tested"].append(p_)
+                    return t_, f_
+        if any(x["k"] == "ref" and x.get("d") in st["fx"] for x in walk(n)):
+            self.opaque = self.opaque or pp(n)[:80]
+        return t_, f_
+
+    def stmt(self, n, st):
+        if n is None:
+            return [st]
+        k = n["k"]
+        if k == "block":
+            sts = [st]
+            for c in n.get("c", ()):
+                nxt = []
+                for s_ in sts:
+                    nxt += self.stmt(c, s_)
+                sts = nxt
+            return sts
+        if k == "declstmt":
+            for v in n.get("c", ()):
+                if v["k"] != "var":
+                    continue
+                init = skip(v["c"][0]) if v.get("c") else None
+                if init is not None and self.vgrad(init):
+                    self.evaluate(init, v["d"], st)
+                elif init is not None and self.scalar(v):
+                    try:
+                        st["env"][v["d"]] = self.ev(init, st)
+                    except _Opaque:
+                        pass
+            return [st]
+        if k == "if":
+            r = n["r"]
+            if "init" in r:
+                i_ = n["c"][r.index("init")]
+                if i_ is not None:
+                    if i_["k"] == "declstmt":
+                        self.stmt(i_, st)
+                    else:
+                        self.expr(i_, st)
+            c_ = n["c"][r.index("cond")]
+            if skip(c_)["k"] == "bin" and skip(c_)["op"] == ",":
+                self.expr(skip(c_)["c"][0], st)
+                c_ = skip(c_)["c"][1]
+            t_, f_ = self.cond(c_, st)
+            out = self.stmt(n["c"][r.index("then")], t_)
+            out += self.stmt(n["c"][r.index("else")], f_) if "else" in r and n["c"][r.index("else")] is not None else [f_]
+            return out
+        if k in ("for", "while"):
+            r = n["r"]
+            if "init" in r and n["c"][r.index("init")] is not None:
+                self.stmt(n["c"][r.index("init")], st) if n["c"][r.index("init")]["k"] == "declstmt" else self.expr(n["c"][r.index("init")], st)
+            body = n["c"][r.index("body")]
+            written = {ref_decl(assignment(x)[0]) for x in walk(body) if assignment(x)} & set(st["env"])
+            for attempt in ("tested", "nothing"):
+                head = self.copy(st)
+                was = {d_: head["env"][d_] for d_ in written}
+                for d_ in written:
+                    self.fresh += 1
+                    head["env"][d_] = sp.Symbol("T%d" % self.fresh, positive=True)
+                head["tested"] = []
+                head["fx"] = {}
+                if attempt == "tested":
+                    # base: every tested point stays tested with the widened step substituted
+                    base_ok = bool(st["tested"]) and len(written) == 1
+                    if not base_ok:
+                        continue
+                    d_ = next(iter(written))
+                    keep = [q for q in st["tested"] if sp.simplify(q[2] - was[d_]) == 0]
+                    if not keep:
+                        continue
+                    head["tested"] = [(q[0], q[1], head["env"][d_]) for q in keep]
+                probe = _StepProvenance(self.f, _Mute(), self.inst)
+                probe.fresh = self.fresh
+                ends = probe.stmt(body, probe.copy(head))
+                if attempt == "tested":
+                    d_ = next(iter(written))
+                    if not all(any(q[0] == h[0] and q[1] == h[1] and sp.simplify(q[2] - e["env"][d_]) == 0 for q in e["tested"]) for e in ends for h in head["tested"]):
+                        continue        # not inductive: fall back to the weaker invariant
+                self.stmt(body, self.copy(head))
+                return [head]       # the loop is left at its head: widened step, invariant
+            return [st]
+        if k == "return":
+            return []
+        if k in ("break", "continue"):
+            raise _Opaque(k)
+        self.expr(n, st)
+        return [st]
+
+
+class _Mute:
+    def ok(self, *a, **k):
+        pass
+
+    def bad(self, *a, **k):
+        pass
+
+    def incomplete(self, *a, **k):
+        pass
+
+
+def rule_adopted_steps(F, R):
+    """R-C02-7: the gradient-sampling line search (the only solver code that overwrites the state without best-point tracking or the
+    registered line-search conditions) adopts only steps that passed its decrease test"""
+    fs = [f for f in F.functions.values() if strip_targs(f.qn) == "nano::gsample::lsearch_t::step" and f.body is not None]
+    seen = set()
+    n = 0
+    for f in sorted(fs, key=lambda f: f.key):
+        inst = "gsample step@%s" % f.key[-44:]
+        sp_ = _StepProvenance(f, R, inst)
+        st = {"env": {}, "tested": [], "fx": {}, "points": {}}
+        try:
+            sp_.stmt(f.body, st)
+        except _Opaque as e:
+            R.incomplete("R-C02-7", inst, f.loc(), "cannot interpret `%s`" % e)
+            continue
+        n += sp_.sites
+    # who-may-overwrite: the unconditional overloads of solver_state_t::update are called from this search, the line-search / curve-search
+    # solvers and the constrained outer loops only (a new caller needs its own argument)
+    R.floor("R-C02-7", n, 2, "adoption sites in the gradient-sampling line search")
+
+
 def run(ctx):
     R = ctx.report
     tus = ctx.all_tus() if ctx.thorough else SOLVER_TUS
@@ -928,3 +1204,4 @@ def run(ctx):
     rule_budget_loops(F, R, fns)
     rule_done_and_status(F, R, fns)
     rule_returned_state(F, R, fns)
+    rule_adopted_steps(F, R)
